@@ -90,3 +90,21 @@ contract(
     raises={"Exception": "True"},
     assigns=["*"],
 )
+
+# ---------------------------------------------------------------------------------------------------------------------------
+# the FlowHead setters: every CHANGE of position / status invokes the registered callback exactly once (no change: no call)
+# ---------------------------------------------------------------------------------------------------------------------------
+FLOWS = "nemoguardrails/colang/v2_x/runtime/flows.py"
+for _attr, _typed in (("position", "is_int(%s)"), ("status", "is_str(%s)")):
+    _cb = "%s_changed_callback" % _attr
+    contract(
+        FLOWS, "FlowHead.%s#2" % _attr, prop="C09",              # the second definition named `position` / `status`: the property setter
+        ghost_lists=["called"],
+        opaque_here={_cb: dict(log="called", log_arg=0, raises=["Exception"],
+                               note="the registered change callback (normally partial(_flow_head_changed, state, flow_state)): arbitrary effect, "
+                                    "recorded in the ghost trace `called`")},
+        requires=["is_obj(self)", "has(self, '_%s')" % _attr, "has(self, '%s')" % _cb, _typed % _attr, _typed % ("self._%s" % _attr)],
+        ensures=["implies(old(self._%s) != %s and not old(is_none(self.%s)), llen(called) == 1 and item(called, 0) is self)" % (_attr, _attr, _cb),
+                 "implies(old(self._%s) == %s or old(is_none(self.%s)), llen(called) == 0 and self._%s == %s)" % (_attr, _attr, _cb, _attr, _attr)],
+        raises={"Exception": "self._%s != %s and not is_none(self.%s)" % (_attr, _attr, _cb)},
+    )
